@@ -136,10 +136,10 @@ fn to_py(core: &Core, ind: usize) -> String {
         Core::VarDef { var, expr, ty } => format!(
             "{}{} = {}",
             to_py(var, ind),
-            if let Some(ty) = ty {
-                format!(": {}", to_py(ty, ind))
-            } else {
-                String::new()
+            // Python only allows an annotation on a single target
+            match (ty, var.as_ref()) {
+                (_, Core::Tuple { .. } | Core::TupleLiteral { .. }) | (None, _) => String::new(),
+                (Some(ty), _) => format!(": {}", to_py(ty, ind)),
             },
             if let Some(expr) = expr {
                 to_py(expr, ind)
